@@ -228,7 +228,7 @@ class CallMixin(object):
     def call_class(self, st, cls, args, kwargs, line):
         if issubclass(cls, BaseException):
             return PyObj(cls)
-        if cls in (str, int, bool, list, set, dict, tuple, len, sorted):
+        if cls in (str, int, bool, list, set, dict, tuple, len, sorted, enumerate, zip, range, reversed, map, filter):
             return self.call_builtin(st, cls, args, kwargs, line)
         import collections
         if cls is collections.OrderedDict and not args:
